@@ -14,6 +14,7 @@ import (
 
 	"verif/mc/explore"
 	"verif/mc/gram"
+	"verif/mc/ref"
 )
 
 // Case is the replayable unit: one grammar and one input (all start positions
@@ -37,6 +38,9 @@ type spaceSpec struct {
 	// cycle (mutual / hidden left recursion through both nonterminals): the part of the
 	// two-nonterminal space in which the curtailment bookkeeping of two parsers interacts.
 	mutualOnly bool
+	// finiteOnShort keeps only grammars whose derivation-tree sets are finite on the inputs "" and "a"
+	// (no epsilon cycles): a cheap filter that removes the explosively ambiguous part of a deep space
+	finiteOnShort bool
 	// noSubsets: build the shared sub-parsers exactly as the space says (no enumeration of memoization subsets)
 	noSubsets bool
 }
@@ -46,6 +50,9 @@ func (s spaceSpec) describe() string {
 		s.sp.Name, s.sp.Alpha.Name, s.sp.NNT, s.sp.NSh, s.sp.Min, s.sp.Max, string(s.alpha), s.maxLen)
 	if s.mutualOnly {
 		d += ", only grammars whose two nonterminals lie on a common same-position cycle"
+	}
+	if s.finiteOnShort {
+		d += ", only grammars with finitely many derivation trees on the inputs \"\" and \"a\""
 	}
 	return d
 }
@@ -177,6 +184,24 @@ func eachGrammar(env *explore.Env, res *explore.Result, specs []spaceSpec, seeds
 				if len(g.NTs) < 2 || an.SCC[g.NTs[0].ID] != an.SCC[g.NTs[1].ID] {
 					res.Add("grammars_outside_mutual_recursion_space", 1)
 					return
+				}
+			}
+			if s.finiteOnShort {
+				an := gram.Analyze(g)
+				if !an.Admitted() {
+					res.Add("grammars_rejected_by_admission", 1)
+					return
+				}
+				for _, w := range []string{"", "a"} {
+					t := ref.Compute(g, an, []byte(w), true)
+					for _, row := range t.Over {
+						for _, o := range row {
+							if o {
+								res.Add("grammars_outside_finite_on_short_inputs_space", 1)
+								return
+							}
+						}
+					}
 				}
 			}
 			res.Add("grammars", 1)
